@@ -52,6 +52,8 @@ GROUPS = {
                 modpath="uci::verif_c18", crate=ENGINE),
     "c11w": dict(file="c11_writer.rs", into="weechess-core/src/notation.rs", scope="mod fen", mod="verif_c11_writer", pub=True,
                  modpath="notation::fen::verif_c11_writer", crate=CORE),
+    "c09l": dict(file="c09_lookup.rs", into="weechess-core/src/attacks.rs", scope=None, mod="verif_c09_lookup", pub=True,
+                 modpath="attacks::verif_c09_lookup", crate=CORE),
     "c01p": dict(file="c01_perft.rs", into="weechess-engine/src/searcher.rs", scope=None, mod="verif_c01_perft", pub=False,
                  modpath="searcher::verif_c01_perft", crate=ENGINE),
 }
@@ -79,6 +81,10 @@ EXTRACTS = [
          marker="let mut search_time: Option<f64> = None;", end_marker="// TODO: Do we always want to pick a book move?", out="uci_go_args_extracted.rs",
          header="#[allow(unused_mut, unused_variables, unused_assignments)]\npub fn uci_go_args(args: &[&str]) -> (Option<f64>, Option<usize>) {",
          footer="(search_time, search_depth)\n"),
+    # the three slider look-ups, verbatim, compiled in the harness against abstract tables (kani/c09_lookup.rs)
+    dict(kind="fns", file="weechess-core/src/attacks.rs", scopes=["impl AttackGenerator"],
+         fns=["compute_bishop_attacks", "compute_rook_attacks", "compute_queen_attacks"], out="attack_lookups_extracted.rs",
+         header="impl LookUps {", footer="}"),
     # the `ucinewgame` arm of the UCI command loop, as a function over the two loop-local variables it can touch
     dict(file="weechess-engine/src/uci.rs", marker='Some((&"ucinewgame", _)) => {', out="ucinewgame_extracted.rs",
          header="#[allow(unused_mut, unused_variables, unused_assignments)]\npub fn ucinewgame_arm<S: SearchLike>(mut current_search: Option<S>, "
@@ -333,6 +339,10 @@ PROPS["C09"] = dict(
         K("c09", "c09_rook_slide_masks_builder_contract", desc="compute_rook_slide_masks()[s].test(t) <=> t on a rook line from s and not the last square of its ray; "
           "symbolic s, t (the builder is called directly; the lazy static only caches its result)", functions=["data::compute_rook_slide_masks"], timeout=2400, tier="experimental", heavy=True),
         K("c09", "c09_bishop_slide_masks_builder_contract", desc="same for the bishop masks", functions=["data::compute_bishop_slide_masks"], timeout=2400, tier="experimental", heavy=True),
+        K("c09l", "c09_lookups_read_the_masked_magic_key", desc="AttackGenerator::compute_{rook,bishop,queen}_attacks (verbatim, against ABSTRACT tables): the look-up "
+          "reads row `square` of the piece's own filled table at ((occ & MASK[sq]) * MAGIC[sq]) >> (64 - WIDTH[sq]) for every table content, square and "
+          "occupancy; queen = rook | bishop", functions=["AttackGenerator::compute_rook_attacks", "AttackGenerator::compute_bishop_attacks",
+          "AttackGenerator::compute_queen_attacks"], timeout=1500),
         K("c09", "c09_lemma_off_mask_blockers_irrelevant", desc="spec-level lemma: blockers outside the slide mask never change the "
           "slider attack set (with the unopt and mask contracts: unopt(s,occ) == unopt(s, occ & mask(s)))", functions=[], timeout=1500),
         K("c09", "c09_blockers_from_index_contract", desc="compute_blockers_from_index deposits the low bits of the index into the "
